@@ -64,7 +64,7 @@ func pump(w io.Writer, r io.Reader, chunks [][]byte, bufSizes []int, between fun
 			if between != nil {
 				between(k)
 			}
-			if _, err := w.Write(c); err != nil {
+			if err := writeAll(w, c); err != nil {
 				x.werr = err
 				return
 			}
@@ -247,7 +247,7 @@ func TestC25(t *testing.T) {
 			var sent []byte
 			for _, c := range chunks {
 				sent = append(sent, c...)
-				if _, err := w.Write(c); err != nil {
+				if err := writeAll(w, c); err != nil {
 					sig["kind"] = "write_failed"
 					r.Violation(sig, err.Error(), rep)
 					return
@@ -380,4 +380,25 @@ func TestC25(t *testing.T) {
 	if !weak {
 		r.Floor("key_updates_sent", 5)
 	}
+}
+
+// writeAll writes p the way a careful caller does: it honours the count Write returns and
+// goes on with the rest.  io.Writer's contract (a short count comes with an error) is part
+// of "the peer reads what was written": a Write that puts all bytes on the wire but reports
+// fewer makes such a caller send bytes twice.
+func writeAll(w io.Writer, p []byte) error {
+	for len(p) > 0 {
+		n, err := w.Write(p)
+		if err != nil {
+			return err
+		}
+		if n < 0 || n > len(p) {
+			return fmt.Errorf("Write returned an impossible count %d for %d bytes", n, len(p))
+		}
+		if n < len(p) {
+			return fmt.Errorf("Write returned (%d, nil) for %d bytes: a short write without an error", n, len(p))
+		}
+		p = p[n:]
+	}
+	return nil
 }
